@@ -274,3 +274,33 @@ def c06(res: CheckResult) -> None:
 @check("C07")
 def c07(res: CheckResult) -> None:
     _expr_run(res, layouts=True)
+
+
+@check("C20")
+def c20(res: CheckResult) -> None:
+    from icv import msgcheck as M
+    rng = random.Random(res.seed)
+    res.assumptions = COMMON_ASSUMPTIONS + [
+        "reprlib (standard library) is the trusted renderer: a value line must equal contract_a_repr.repr(value)",
+        "LeftOut is applied to names, attributes and arguments the condition references; the result of a call or "
+        "subscript is a computed value that C06 requires to be listed"]
+    M.check_messages(res, res.tier, rng)
+    # sortedness and determinism of the recomputed value lines is also part of the expression families
+    _expr_run_c20(res)
+
+
+def _expr_run_c20(res: CheckResult) -> None:
+    from icv import exprcheck as E
+    from icv.result import MachineryError
+    ic = C.load_icontract()
+    rng = random.Random(res.seed + 7)
+    exprs = E.fam_nested(rng, 600 if res.tier == "quick" else 4000)
+    cases = E.make_cases(exprs, rng, envs_per_expr=6)
+    r, viol, py = E.model_check_expr(cases)
+    if not r.ok:
+        raise MachineryError("ICExpr: {}".format(r.violated or r.error))
+    res.states += r.distinct
+    res.transitions += r.states
+    st = E.check_cases(res, EXPR_CLAUSES, cases, viol, py, ic)
+    res.traces += st["cases"]
+    res.add_unit("value lines of recomputed sub-expressions are sorted by expression text", **st)
